@@ -1,12 +1,14 @@
 """Engine E2 (the zoo): generated stack TUs + generic adapter + reference interpreter, linked into one driver binary."""
 import json
 import os
+import random
 
 from . import core, stackgen
 from .e1 import H
 
 ZOO = os.path.join(core.HARNESS, "zoo")
-MODES = ["mode_c02.cpp", "mode_c06.cpp", "mode_c17.cpp", "mode_c13.cpp", "mode_c08.cpp"]
+MODES = ["mode_c02.cpp", "mode_c06.cpp", "mode_c17.cpp", "mode_c13.cpp", "mode_c08.cpp", "mode_c07.cpp"]
+GOLDEN = os.path.join(core.ROOT, "golden")
 
 
 def cpu_has_bmi2():
@@ -20,7 +22,7 @@ def stack_flags():
     return core.SAN + (["-mbmi2"] if cpu_has_bmi2() else [])
 
 
-def descriptor(layers):
+def descriptor(layers, extra=None):
     ls = []
     for l in layers:
         d = {k: l[k] for k in ("kind", "N", "M", "in", "out", "ref")}
@@ -28,27 +30,31 @@ def descriptor(layers):
             if k in l:
                 d[k] = l[k]
         ls.append(d)
-    return json.dumps({"layers": ls, "view_size": stackgen.view_size(layers)[0]}, separators=(",", ":"))
+    d = {"layers": ls, "view_size": stackgen.view_size(layers)[0]}
+    if extra:
+        d.update(extra)
+    return json.dumps(d, separators=(",", ":"))
 
 
-def tu_text(layers):
+def tu_text(layers, extra=None):
     sid = stackgen.stack_id(layers)
-    return f'#include "zoo/adapter.hpp"\nZOO_REGISTER({sid}, R"json({descriptor(layers)})json", {stackgen.cpp_type(layers)})\n'
+    return '#include "zoo/adapter.hpp"\nZOO_REGISTER(%s, R"json(%s)json", %s)\n' % (sid, descriptor(layers, extra), stackgen.cpp_type(layers))
 
 
 class ZooH(H):
-    """The zoo binary for a given stack list, run in a given mode."""
+    """The zoo binary for a given stack list, run in a given mode. `extras` maps stack id -> extra descriptor fields."""
 
-    def __init__(self, name, stacks, mode, shards=16, env=None):
-        super().__init__(name, "zoo/zoo_main.cpp", shards=shards, env=dict(env or {}, VERIF_ZOO_MODE=mode))
+    def __init__(self, name, stacks, mode, shards=16, env=None, extras=None, flags=None, link_flags=None):
+        super().__init__(name, "zoo/zoo_main.cpp", shards=shards, env=dict(env or {}, VERIF_ZOO_MODE=mode), link_flags=link_flags)
         self.stacks = stacks
-        self.flags = stack_flags()
+        self.extras = extras or {}
+        self.flags = flags if flags is not None else stack_flags()
 
     def build(self):
         def one(layers):
             sid = stackgen.stack_id(layers)
             try:
-                return core.compile_obj("zoo_" + sid, None, self.flags, src_text=tu_text(layers))
+                return core.compile_obj("zoo_" + sid, None, self.flags, src_text=tu_text(layers, self.extras.get(sid)))
             except core.CompileFailure as e:
                 # the TU is the generic adapter plus one type spelling derived from the grammar: a failure
                 # means the library does not support an in-domain stack
@@ -66,3 +72,37 @@ class ZooH(H):
 def quick_stacks(seed):
     stacks, missing = stackgen.cover(seed, budget=70, min_stacks=48)
     return stacks, missing
+
+
+def fixed_stacks():
+    return [stackgen.finish(s) for s in stackgen.FIXED]
+
+
+def c07_pairs(seed):
+    """Array-backed stacks of the cover (plus the fixed ones) with a sibling differing in storage width and/or
+    interpolation method. Returns (stacks, extras)."""
+    rng = random.Random(f"{seed}:C07:pairs")
+    cover, _ = quick_stacks(seed)
+    stacks, extras, seen = [], {}, set()
+
+    def add(l):
+        t = stackgen.cpp_type(l)
+        if t not in seen:
+            seen.add(t)
+            stacks.append(l)
+
+    for l in cover:
+        variants = [(True, False), (False, True), (True, True)]
+        rng.shuffle(variants)
+        for sw, si in variants:
+            v = stackgen.sibling(l, sw, si)
+            if v is None:
+                continue
+            add(l)
+            add(v)
+            extras.setdefault(stackgen.stack_id(l), {"pair": stackgen.stack_id(v), "pair_kind": ("width" if sw else "") + ("+interp" if si else "")})
+            extras.setdefault(stackgen.stack_id(v), {"pair": stackgen.stack_id(l), "pair_kind": ("width" if sw else "") + ("+interp" if si else "")})
+            break
+    for l in fixed_stacks():   # golden files exist for these
+        add(l)
+    return stacks, extras
